@@ -328,6 +328,7 @@ package object
 //@ invariant object.PanFunc: self.FuncWrapper != nil && self.Env != nil
 //@ invariant object.Env: self.Store != nil
 //@ invariant object.Pair: isVal(self.Key) && isVal(self.Value)
+//@ invariant object.DeferObj: self.Node != nil
 //@ invariant object.PanInt: self.proto == nil || isVal(self.proto)
 //@ invariant object.PanStr: self.proto == nil || isVal(self.proto)
 //@ invariant object.PanArr: self.proto == nil || isVal(self.proto)
